@@ -912,6 +912,7 @@ func runC14(cfg *RunCfg, rep *Reporter, cov *Cov) {
 	// pass 1 (sequential, nothing else running): allocation measurement for damages of length fields
 	var ms runtime.MemStats
 	allocViol := 0
+	stuckPaused.Store(true) // nothing else allocates in this process during the measurements
 	for _, j := range jobs {
 		s, d := subjects[j.s], damages[j.s][j.d]
 		if !d.lengthFlip || j.s >= 3 || allocViol >= 3 {
@@ -947,6 +948,7 @@ func runC14(cfg *RunCfg, rep *Reporter, cov *Cov) {
 		kClose(l)
 		os.RemoveAll(dir)
 	}
+	stuckPaused.Store(false)
 	// pass 2 (parallel): behaviour
 	parallel(len(jobs), cfg.Workers, func(k int) {
 		j := jobs[k]
